@@ -100,6 +100,10 @@ def adversarial(rng, doc):
         "dup-name-mutual-cycle": ("rule y when %s !exists {\n zz exists\n}\nrule y when %s exists {\n x\n}\n"
                                   "rule x when %s !exists {\n zz exists\n}\nrule x when %s exists {\n y\n}\nrule u when x {\n y\n}") % (k, k, k, k),
         "dup-name-cycle-via-call": "rule p(a) {\n x\n %%a exists\n}\nrule x when zz exists {\n %s exists\n}\nrule x {\n p(%s)\n}" % (k, k),
+        "cyclic-variables": "let va = %%vb\nlet vb = %%va\nrule x {\n %%va exists\n %s exists\n}" % k,
+        "self-referential-variable": "rule x {\n let va = %%va\n %%va !empty or %s exists\n}\nrule y {\n %s {\n  let vb = %%vb.z\n  %%vb exists\n }\n}" % (k, k),
+        "cyclic-variable-via-function": "let va = count(%%va)\nlet vb = join(%%vc, \",\")\nlet vc = to_upper(%%vb)\nrule x {\n %%va exists\n}\nrule y {\n %%vb exists or %s exists\n}" % k,
+        "cyclic-variable-via-filter": "let va = %s[ this == %%va ]\nrule x {\n %%va !empty\n}" % k,
         "wrong-arity": "rule p(a, b) { %%a == %%b }\nrule x { p(%s) }" % k,
         "unknown-param-rule": "rule x { nosuch(%s) }" % k,
         "unknown-variable": "rule x { %%nosuch == 1 }",
@@ -503,11 +507,11 @@ def main(tier, seed):
     res.extra["distinct_parse_error_positions"] = len(pos)
     shapes = [k for k in res.counts if k.startswith("shape:")]
     mr, sp = res.counts["mutated_rules"], res.counts["mutated_rules_still_parse"]
-    floor = {"cases": (res.cases, 5000), "adversarial_shapes": (len(shapes), 30), "mutated_rules_still_parsing_percent": (int(100 * sp / max(1, mr)), 5),
+    floor = {"cases": (res.cases, 5000), "adversarial_shapes": (len(shapes), 34), "mutated_rules_still_parsing_percent": (int(100 * sp / max(1, mr)), 5),
              "distinct_parse_error_positions": (len(pos), 100), "channels": (len(res.extra.get("channels", set())), 15), "memcheck_jobs": (njobs, 40),
              "overflow_checked_sweep_jobs": (res.counts["sweep_jobs"], 2500)}
     return core.finish("C08", tier, seed, res, t0,
-                       rule="(1) grammar-generated rule texts with 1-3 byte/token mutations x documents; (2) 33 adversarial grammatical shapes + generated programs with "
+                       rule="(1) grammar-generated rule texts with 1-3 byte/token mutations x documents; (2) 37 adversarial grammatical shapes + generated programs with "
                             "this-filters/keys filters/functions x generated and mutated documents; (3) 22 hostile documents + mutated documents as data, parameter "
                             "file, test spec and payload envelope; (4) real processes incl. rulegen and non-UTF-8 files; valgrind memcheck on the YAML loader / payload / "
                             "FFI paths; (5) crash sweep: the quick workloads of C18 and C13 (thorough: also C01, C03, C10, C15, C11, C17) replayed on the "
